@@ -24,7 +24,9 @@ vars == <<l>>
 SeqSame(x, y) == Len(x) = Len(y) /\ \A i \in 1..Len(x) : SameF(x[i], y[i])
 \* Interval evaluation makes no claim about points whose value is NaN (C03), so a
 \* trace taken by an interval evaluator makes none either: for such traces a
-\* sample is judged only if no NaN occurs in the pointwise reference evaluation.
+\* sample is judged only if no NaN occurs in the pointwise reference evaluation
+\* (nan_parent / nan_root are also set where an atan2 has both arguments zero, the
+\* one locus that C03 excludes).
 IntervalDerived(r) == r.tracer \in {"vm-interval", "jit-interval"}
 Tainted(r, s) == (\E k \in 1..Len(r.bs[s]) : IsNaN(r.bs[s][k])) \/ (IntervalDerived(r) /\ r.nan_parent[s])
 RootTainted(r, s) == Tainted(r, s) \/ r.nan_root[s] \/ r.nan_parent[s]
